@@ -5,6 +5,7 @@ package main
 // exception that 拦截异常 receives; no Go panic, no nil element, no wrong data.
 
 import (
+	"bufio"
 	"errors"
 	"fmt"
 	"io"
@@ -27,6 +28,7 @@ type c10Scenario struct {
 	Faults   []string          `json:"enabled_faults,omitempty"`
 	Body     string            `json:"body,omitempty"`
 	BodyFail string            `json:"body_fault,omitempty"`
+	Wire     string            `json:"request_bytes,omitempty"`
 	Outcome  string            `json:"outcome,omitempty"`
 	Expected string            `json:"expected,omitempty"`
 }
@@ -522,6 +524,86 @@ func c10Loading(t *zsim.Tape, w *zsim.World, d *zsim.Disk, sc *c10Scenario, out 
 	return out
 }
 
+// c10WireRequest renders a request as the bytes a client might send and parses them with
+// http.ReadRequest. nil = keep the directly constructed request (also when the bytes are so
+// malformed that net/http refuses them before any handler sees the request).
+func c10WireRequest(t *zsim.Tape, body string, sc *c10Scenario) (*http.Request, bool) {
+	if t.Draw(3) != 1 {
+		return nil, false
+	}
+	cut := false
+	var sb strings.Builder
+	method := []string{"POST", "POST", "PUT", "GET", "DELETE", "OPTIONS", "PATCH"}[t.Draw(7)]
+	query := []string{"?x=1", "", "?", "?a", "?=v", "?a=1&a=2&a=", "?a&b&c=", "?%zz=1", "?k=%E4%B8%AD&%E6%96%87=v", "?a=1;b=2", "?" + strings.Repeat("k=v&", 300)}[t.Draw(11)]
+	proto := []string{"HTTP/1.1", "HTTP/1.1", "HTTP/1.0"}[t.Draw(3)]
+	framing := t.Draw(8)
+	if framing > 2 {
+		proto = "HTTP/1.1" // net/http ignores Transfer-Encoding on HTTP/1.0 requests (no body at all)
+	}
+	fmt.Fprintf(&sb, "%s /run%s %s\r\n", method, query, proto)
+	if t.Draw(8) != 7 {
+		sb.WriteString("Host: sim.local\r\n")
+	}
+	// header fields: repeated names, empty values, names differing in letter case only
+	for i, n := 0, t.Draw(4); i < n; i++ {
+		sb.WriteString([]string{"X-A: 1\r\n", "X-A: 2\r\n", "x-a: 3\r\n", "X-Empty:\r\n", "X-Empty: \r\n", "Cookie: a=b\r\n", "Cookie: c=d\r\n", "Accept: */*\r\n"}[t.Draw(8)])
+	}
+	if x := t.Draw(6); x > 0 {
+		sb.WriteString("Content-Type: " + []string{"application/json", "application/json; charset=utf-8", "json", "", "text/plain"}[x-1] + "\r\n")
+	}
+	switch framing {
+	case 0, 1: // announced length = what is sent
+		fmt.Fprintf(&sb, "Content-Length: %d\r\n\r\n%s", len(body), body)
+	case 2: // shorter than announced: the connection ends early
+		fmt.Fprintf(&sb, "Content-Length: %d\r\n\r\n%s", len(body)+7, body)
+		cut = true
+	default: // chunked, with chunk sizes, extensions and trailers of the client's choosing
+		announce := []string{"", "", "X-Checksum", "X-Checksum, X-Other", "x-checksum"}[t.Draw(5)]
+		sb.WriteString("Transfer-Encoding: chunked\r\n")
+		if announce != "" {
+			sb.WriteString("Trailer: " + announce + "\r\n")
+		}
+		sb.WriteString("\r\n")
+		rest := body
+		for len(rest) > 0 {
+			n := 1 + t.Draw(len(rest))
+			if t.Draw(3) == 0 {
+				n = len(rest)
+			}
+			ext := []string{"", "", ";ext=1"}[t.Draw(3)]
+			fmt.Fprintf(&sb, "%x%s\r\n%s\r\n", n, ext, rest[:n])
+			rest = rest[n:]
+		}
+		switch framing {
+		case 7: // the connection ends inside the chunked body
+			cut = true
+		default:
+			sb.WriteString("0\r\n")
+			switch t.Draw(4) { // which trailer fields actually follow
+			case 1:
+				sb.WriteString("X-Checksum: abc\r\n")
+			case 2:
+				sb.WriteString("X-Checksum: abc\r\nX-Other: 1\r\nX-Unannounced: 2\r\n")
+			case 3:
+				sb.WriteString("X-Other:\r\n")
+			}
+			sb.WriteString("\r\n")
+		}
+	}
+	raw := sb.String()
+	req, err := http.ReadRequest(bufio.NewReader(strings.NewReader(raw)))
+	if err != nil {
+		return nil, false
+	}
+	req.RemoteAddr = "192.0.2.1:1234"
+	head := raw
+	if len(head) > 600 {
+		head = head[:600] + "…"
+	}
+	sc.Wire = head
+	return req, cut
+}
+
 type failingBody struct {
 	data []byte
 	off  int
@@ -622,6 +704,19 @@ func c10Body(t *zsim.Tape, w *zsim.World, d *zsim.Disk, sc *c10Scenario, out *hl
 			"Application/JSON", "json", "text", "json; charset=utf-8", "application/", "/", "a/b/c", ";", "text/plain; charset", "application/vnd.api+json",
 			strings.Repeat("x", 5000) + "/json"}[x-1])
 	}
+	// one request in three arrives as BYTES and is parsed by net/http's own request reader, as in
+	// the prefork worker (http.ReadRequest) and under http.Serve: framing, trailers, repeated and
+	// empty header fields, odd query strings and methods are the client's choice
+	wireCut := false
+	if wire, cut := c10WireRequest(t, body, sc); wire != nil {
+		req, wireCut = wire, cut
+		fb.fail = -1 // the directly constructed body (and its abort point) is not used
+		sc.BodyFail = ""
+		if cut {
+			sc.BodyFail = "the connection ends before the announced end of the body"
+			w.Fault("net.body-cut-on-the-wire")
+		}
+	}
 	rec := httptest.NewRecorder()
 	var h http.Handler
 	which := "playground"
@@ -638,6 +733,9 @@ func c10Body(t *zsim.Tape, w *zsim.World, d *zsim.Disk, sc *c10Scenario, out *hl
 	out.Keys = []string{fmt.Sprintf("body|%s|%d|%v|%s", which, t.Pos()%3, fb.fail >= 0, hlib.Hash(body))}
 	if res.Panic != "" {
 		return fail("handler:panic:"+c10PanicSite(w), "Go panic escaped "+which+" handler: "+res.Panic)
+	}
+	if wireCut && rec.Code == 200 {
+		return fail("handler:truncated-body-served", "the connection ended before the announced end of the request body but the handler answered 200: "+sc.Outcome)
 	}
 	if fb.fail >= 0 && fb.fail < len(body) && rec.Code == 200 {
 		return fail("handler:truncated-body-served", "the request body reader failed mid-body but the handler answered 200: "+sc.Outcome)
